@@ -598,6 +598,7 @@ impl V9 {
                         result.extend_from_slice(&field_value.to_be_bytes()?);
                     }
                 }
+                result.extend_from_slice(&data.padding);
             }
 
             if let FlowSetBody::OptionsData(options_data) = &set.body {
